@@ -355,14 +355,16 @@ Proof.
   rewrite (parents_validate_cascade e ps Ht Hpo Er Ep Ed). reflexivity.
 Qed.
 
+Ltac case_on b := destruct b; cbn; try solve [split; intros; congruence].
+
 Lemma cascade_ok : forall cur vals e ps,
   cascade cur vals e ps = Ok <-> wf_event_b cur vals e ps = true.
 Proof.
   intros. unfold cascade, wf_event_b. pose proof (c_range_all_below e) as Hab.
-  destruct (c_range_b e); [rewrite (Hab eq_refl)|];
-  destruct (all_below_b e), (c_present_b e), (c_distinct_b e),
-    (c_epoch_b cur e), (c_creator_b vals e), (c_lamport_b e ps), (c_selfparent_b e ps),
-    (c_seq_b e ps); cbn; split; intros; congruence.
+  destruct (c_range_b e); [rewrite (Hab eq_refl)|]; cbn;
+  case_on (all_below_b e); case_on (c_present_b e); case_on (c_distinct_b e);
+  case_on (c_epoch_b cur e); case_on (c_creator_b vals e); case_on (c_lamport_b e ps);
+  case_on (c_selfparent_b e ps); case_on (c_seq_b e ps).
 Qed.
 
 Lemma cascade_err : forall cur vals e ps k,
@@ -371,10 +373,10 @@ Proof.
   intros. unfold cascade. pose proof (c_range_all_below e) as Hab.
   destruct (c_range_b e) eqn:Er.
   - rewrite (Hab eq_refl). cbn [negb].
-    destruct k; cbn [blames_b]; rewrite ?Er, ?(Hab eq_refl);
-    destruct (c_present_b e), (c_distinct_b e),
-      (c_epoch_b cur e), (c_creator_b vals e), (c_lamport_b e ps), (c_selfparent_b e ps),
-      (c_seq_b e ps); cbn; split; intros; congruence.
+    destruct k; cbn [blames_b]; rewrite ?Er, ?(Hab eq_refl); cbn;
+    case_on (c_present_b e); case_on (c_distinct_b e);
+    case_on (c_epoch_b cur e); case_on (c_creator_b vals e); case_on (c_lamport_b e ps);
+    case_on (c_selfparent_b e ps); case_on (c_seq_b e ps).
   - destruct k; cbn [blames_b]; rewrite ?Er;
     destruct (all_below_b e); cbn; split; intros; congruence.
 Qed.
